@@ -178,6 +178,14 @@ def job_worker(part, job):
         c = np.ascontiguousarray(c, dtype=np.complex128)
         part.ev()
         N0, P0, S0 = invariants_of(L, c, sht)
+        if np.shape(S0) != (L + 1,) or np.shape(N0) != (L + 1,):
+            part.fail("spectrum-shape", "L=%d: power spectrum of shape %s, N invariants of shape %s, expected %d entries each" % (L, np.shape(S0), np.shape(N0), L + 1),
+                      {"kind": "vec", "L": L, "mode": mode, "real": real, "tag": tag, "idx": list(idxs)})
+            continue
+        if real and np.shape(sht.power_spectrum(ylm.real_layout_from_full(L, c))) != (L + 1,):
+            part.fail("spectrum-shape", "L=%d: real-layout power spectrum of shape %s, expected %d entries" % (L, np.shape(sht.power_spectrum(ylm.real_layout_from_full(L, c))), L + 1),
+                      {"kind": "vec", "L": L, "mode": mode, "real": real, "tag": tag, "idx": list(idxs)})
+            continue
         scale2 = float(np.sum(np.abs(c) ** 2)) or 1.0
         scale3 = scale2 ** 1.5
         part.nstates(1)
@@ -448,6 +456,7 @@ def run(ctx):
             mode = "triples" if L <= triple_L else "pairs" if L <= pair_L else "singles"
             for ch in chunks:
                 jobs.append(("inv", (L, mode, real, ch)))
+        jobs.append(("inv", (0, "dense", real, rots[:3])))      # band limit 0: one coefficient, one N invariant, no P invariant, a one-entry power spectrum
         for L in (8, 12):
             for ch in chunks:
                 jobs.append(("inv", (L, "adjacent" if L == 8 or ctx.thorough else "singles", real, ch[: max(2, len(ch) // (1 if ctx.thorough else 3))])))
